@@ -18,4 +18,61 @@ TEXT = {
        "near-valid and random byte strings for every decodable type, and on ALL strings up to 2/3 bytes for 37 small-alphabet types; panics are caught, "
        "aborts and CPU-limit hits are attributed to the last case. Totality on unseen inputs is not claimed.",
   note="Non-termination is restated as a CPU budget per shard; inputs needing >10^6 model steps (giant counts over empty-encoding elements) are skipped and counted."),
+ "C04": dict(
+  technique="runtime monitoring: arithmetic reference model over exhaustively enumerated values and byte strings (8/16/32 bit) plus structured and random cases (64/128 bit)",
+  text="Every compact operation (encode, compact_len, using_encoded, encode_to, encoded_size, decode) is executed and compared with a 30-line arithmetic model: "
+       "exhaustively for 8/16-bit values and all 2-byte strings in quick, for ALL 2^32 u32 values and all strings the 16/32-bit decoders can distinguish in thorough; "
+       "64/128-bit widths on boundaries, two-lane values, the full tag x top-byte x length grid and millions of random cases. Still exploration for 64/128 bit.",
+  note="The model is the property's own definition; exhaustive sub-spaces are listed in the evidence (counters *_exhaustive)."),
+ "C07": dict(
+  technique="runtime monitoring: differential between encoding entry points and between bulk and element-wise twin containers, with Output/Input chunk traces proving which path ran; Miri/ASan/valgrind on the transmute and set_len paths",
+  text="For every universe value the five entry points must describe one byte string; for the twelve primitives the bulk-optimised slice/Vec/VecDeque/array paths are "
+       "compared (bytes and decode outcomes on hostile strings) with an element-wise twin type, and the run is inconclusive unless a bulk and an element-wise path were "
+       "actually observed for all twelve. The unsafe paths also run under Miri (quick) and ASan/valgrind/big-endian Miri (thorough).",
+  note="Twin<P> forwards to P with TYPE_INFO = Unknown; path detection is by request sizes at the public Output/Input boundary."),
+ "C08": dict(
+  technique="runtime monitoring: differential against the slice run across input stacks built from the real wrappers (erased with a forwarding shim)",
+  text="Each byte string is decoded from the slice and from input stacks built out of the crate's own IoReader, CountedInput, depth-limit and mem-limit wrappers (all 40 "
+       "wrapper words of length <= 3 appear over a run), an unknown-length input, a short-chunk reader and decode_from_bytes; accept/reject, value and consumed bytes must agree. "
+       "The zero-copy Bytes path is observed directly (decoded buffer points into the source).",
+  note="Wrappers are composed through a type-erasing Input shim that forwards all six methods; the private depth tracker is inserted through decode_with_depth_limit."),
+ "C10": dict(
+  technique="runtime monitoring with fault injection: exhaustive fault grid over a construction/drop ledger; the same executions under Miri, AddressSanitizer+LeakSanitizer and valgrind",
+  text="For every container and all-success input the full grid of failure positions and kinds is executed (element malformed/panicking at each index, input exhausted at each "
+       "cut, input failing/panicking at each request, each announced allocation tripping the memory limit, each depth limit); the ledger must balance after each case and "
+       "the sanitizers must stay silent. Fault enumeration is the right level: the fault space per input is finite and fully enumerated, the inputs are chosen.",
+  note="Ledger keeps ids, not addresses (does not hide leaks from LSan); leaks of the crate's own raw allocations are visible only to Miri/LSan/valgrind shards."),
+ "C14": dict(
+  technique="runtime monitoring: direct oracle on prefixes, concatenations and consume-all entry points over generated values and hostile strings",
+  text="All strict prefixes of real encodings must fail (slice and IoReader inputs), concatenations of mixed-type encodings must decode value by value leaving nothing, and "
+       "decode_all / decode_all_with_depth_limit(MAX) must equal 'decode succeeded and input empty' on arbitrary strings.",
+  note="Prefix sampling beyond 512 bytes; types with possibly-empty element encodings are left out of concatenations (their decode is still self-delimiting, covered in (1))."),
+ "C18": dict(
+  technique="runtime monitoring: direct oracle for DecodeLength and differential skip vs decode with spy input positions",
+  text="len() on real encodings is compared with the logical length for every type that offers it (found by a compile-time probe, so new impls are picked up) through all "
+       "count widths, and skip is compared with decode (success and position) on valid and hostile strings of every decodable type.",
+  note="Counts >= 2^30 only through zero-sized elements."),
+ "C19": dict(
+  technique="runtime monitoring: online step checker above CountedInput compared with an independent spy below it; saturation via guarded hook",
+  text="A checker layered above the counting input recomputes the expected count from the outcomes of the requests it forwards and compares after every single request; "
+       "the spy below reports what was really delivered. Failures are injected in the inner input, and the counter is started near u64::MAX through the hook to observe saturation.",
+  note="Hook: CountedInput::verif_with_count behind --cfg psc_verif."),
+ "C09": dict(
+  technique="runtime monitoring: counting global allocator bracketing each decode; metamorphic oracle (claimed-count independence) plus calibrated linear bound; known-finding file for the recorded defect",
+  text="Heap requests during each decode are observed by a counting #[global_allocator]. Hostile twins differing only in a claimed count (2^31 vs 2^32-1) must show the same "
+       "peak and largest request (4 KiB slack), over slice, unknown-length and shared-buffer inputs and at every nesting position; an absolute bound linear in the delivered "
+       "bytes is checked as well. One genuine defect is recorded as a known finding (containers of elements with empty encodings).",
+  note="Children are single-threaded; requests above 8 GiB are refused so that 'allocate by claimed count' ends in an attributable abort."),
+ "C11": dict(
+  technique="runtime monitoring: two-sided threshold oracle from a model-computed container depth, monotonicity and transparency sweeps over every limit, spy depth traces, deep-input survival on a small stack in a child process",
+  text="For each value every limit 0..=depth+2 is executed natively and through wrapper layers: results must equal the unlimited result or fail, be monotone, succeed from "
+       "depth_hi on and fail below depth_lo; descend/ascend traces must balance. Million-level nestings of recursive types are decoded with small limits on a 2 MiB stack: "
+       "the child must survive and report an error.",
+  note="Reading of 'recurses through more than L levels' is the one under which the crate's own documented test holds (see assumptions in the evidence)."),
+ "C12": dict(
+  technique="runtime monitoring with fault injection: exhaustive limit sweep (every limit up to U+1) against the measured tracked usage, hook conservation via spy, payload lower bound from the bridge",
+  text="The limit is the injected fault: for every value with U <= 4096 each L in 0..=U+1 is executed (success iff L > U, result identical to unlimited decoding), larger "
+       "values at boundary limits; U must equal the sum of announced allocations, be 0 for heap-free values and at least the logical heap payload (half of it for trees). "
+       "Fault enumeration: per value the limit space is swept completely.",
+  note="Payload computed from the decoded value by harness code (bridge heap()), sizes via size_of of the real element types."),
 }
